@@ -503,9 +503,18 @@ fn directed_tlfs() -> Vec<Vec<u8>> {
             }
             for extra in 0..=3 {
                 if let Some(t) = build_tlf_raw(ty_bits(ty), val, n + extra) {
-                    if t.len() <= 12 {
-                        v.push(t);
-                    }
+                    v.push(t);
+                }
+            }
+        }
+    }
+    // very long TLFs: hundreds of leading zero groups in front of a small value (valid), and values smaller
+    // than the TLF's own size (underflow)
+    for ty in [RTy::Octet, RTy::Int, RTy::Uint, RTy::List] {
+        for nb in [13usize, 16, 64, 254, 255, 256, 257, 258, 300, 1000, 4096] {
+            for val in [0u128, 1, 2, (nb as u128).saturating_sub(1), nb as u128, nb as u128 + 1, nb as u128 + 2, nb as u128 + 4, nb as u128 + 8, nb as u128 + 9] {
+                if let Some(t) = build_tlf_raw(ty_bits(ty), val, nb) {
+                    v.push(t);
                 }
             }
         }
